@@ -224,7 +224,14 @@ def r2(ctx):
               line=target.stmt.lineno, role="consumer:pairing",
               expected="[update(model.clusters[k], tasks[k].get()) for k in order]", found=str(t)[:160])
     want_len = tm.length(Attr(Sym("model"), "clusters"))
-    ctx.check(tm.length(t) == want_len, cons, "the gather visits every cluster once", line=target.stmt.lineno,
+    got_len = tm.length(t)
+    if got_len != want_len and isinstance(got_len, App) and got_len.fn == "len" and isinstance(got_len.args[0], Sym) and got_len.args[0].name in cons.own_params:
+        # one result per task: the task list has one entry per cluster id when every caller built it that way (producer:range above)
+        from .common import param_length_at_callers
+        at_callers = param_length_at_callers(ana, cons, got_len.args[0].name)
+        if at_callers and all(x == want_len for x in at_callers):
+            got_len = want_len
+    ctx.check(got_len == want_len, cons, "the gather visits every cluster once", line=target.stmt.lineno,
               role="consumer:length", expected=str(want_len), found=str(tm.length(t)))
     # the list handed to the consumer is the producer's list
     calls = calls_to(ana, prod, cons.qualname)
